@@ -35,7 +35,7 @@ TECHNIQUE = (
     "grammar-directed exhaustive enumeration of control-structure programs x spellings, each compiled and rendered by the "
     "real Template and compared with the same program executed by CPython as a plain function with a reference loop context"
 )
-READY = False
+READY = True
 
 BOUNDS = {
     "quick": {
@@ -62,6 +62,18 @@ RULE = (
     "the bound is produced exactly once by a memoised weight-indexed generator. Each case is executed under the spellings the "
     "bound names. Non-trivial = the program nests at least two control constructs, or reads `loop` inside a `% for`."
 )
+FOOTPRINTS = {
+    # signature -> the feature whose presence explains the failure (each is confirmed per case by rewriting
+    # that feature into an equivalent accepted spelling and requiring the rewritten program to pass)
+    "compile:second-except-clause": "a `% try` with two or more `% except` clauses: the generated module is not valid Python (SyntaxError)",
+    "pyblock:literal-tab-in-string-expanded": "a literal TAB inside a string literal of a <% %> block is replaced by spaces",
+    "loop:bare-tuple-iterable": "`% for x in a, b:` whose body mentions `loop`: TypeError from LoopStack._enter()",
+    "loop:for-line-comment-with-colon": "`% for ...: # text: more` whose body mentions `loop`: the generated module is not valid Python",
+    "loop:mentioned-only-in-call-tag-expression": "`loop` mentioned only in <%call expr=...> inside a `% for`: no loop context for that loop",
+    "loop:mentioned-only-in-namespace-call-attribute": "`loop` mentioned only in an attribute of <%ns:def .../> inside a `% for`: no loop context for that loop",
+    "loop:mentioned-only-in-call-tag-body": "`loop` mentioned only in the body of a <%call> inside a `% for`: NameError for __M_loop",
+}
+
 ASSUMPTIONS = [
     "CPython's compile/exec is the reference for Python semantics: the reference is the same statement list printed as a plain function",
     "the reference loop context (35 lines) restates runtime.rst 'The Loop Context': index/first/last/even/odd/reverse_index/cycle/parent; last and reverse_index need len()",
@@ -70,6 +82,7 @@ ASSUMPTIONS = [
     "`loop` read where no `% for` of the same callable is active: only 'an exception, not output' is demanded; `loop` inside the else-clause of its own `% for` is not generated (not fixed by the statement)",
     "`% finally:` and `% else:` under `% try` are outside the statement (it lists try/except): not generated",
     "exceptions are compared by class (and by arguments for the ValueError/KeyError the programs raise themselves)",
+    "termination is checked with a limit of 3 s of process CPU time per case (a case needs about 2 ms)",
     "for-targets are names and (nested) tuples of names; starred, list, attribute and subscript targets are outside the grammar",
     "mixing TAB and spaces between lines of one <% %> block is outside 'uniform margin' (CPython itself rejects the mixtures that are sensitive to tab expansion)",
     "VERIF_SEED selects text words, item values and context values from pools of interchangeable values, never the structure",
